@@ -19,9 +19,12 @@ RULE = ('seeded tables of 1-4 entries (keys of 1-3 words, 0-2 aliases written wi
         'small colliding pool so that about half are ambiguous), each in every entry order (<= 24 permutations); accepted '
         'tables are queried through all three representations; non-trivial = the table has >= 2 entries; distinct by the '
         'ordered table')
-ASSUMPTIONS = ['names are words separated by white space; aliases bearing parentheses and non-text aliases are outside this property']
+ASSUMPTIONS = ['names are words separated by white space; non-text aliases are outside this property; aliases bearing parentheses are outside its quantifier and exercised by an own stream (accept / refuse against the rule and the model, the representations against each other)']
 
 WORDS = ['gpl', 'GPL', 'mit', '2.0', 'gnu', 'or', 'later', 'x']
+PAREN_KEYS = ['A', 'B', 'gpl', 'x']
+PAREN_ALIASES = ['gpl (v2)', 'gpl(v2)', 'GPL ( V2 )', 'gpl v2', '(x) gpl', '( X )\tgpl', 'x gpl', '(x)gpl', 'gpl (v2', 'gpl( v2', 'x )', 'X)',
+                 '(', ' ( ', '()', '( )', 'mit(', 'MIT  (']
 
 
 def rule(T):
@@ -32,7 +35,7 @@ def rule(T):
     for (k, als, _), kl in zip(T, keys):
         names = {kl}
         for a in als:
-            n = ' '.join(a.lower().strip().split())
+            n = ' '.join(gen.lw(a))     # the lower-cased words of the alias (within this property's scope: a.lower().split())
             if n:
                 names.add(n)
         for n in names:
@@ -99,6 +102,16 @@ def run(rep, tier, seed):
         perms = list(itertools.permutations(T)) if len(T) <= 3 else [tuple(T), tuple(reversed(T))] + \
             [tuple(rng.sample(T, len(T))) for _ in range(4)]
         for p in perms:
+            cases.append(list(p))
+    # aliases bearing parentheses (outside the quantifier of the property, inside the rule since the D11 repair: the spacing
+    # around a parenthesis is spacing): an own stream with its own generator state, after the main one
+    rng2 = random.Random(seed * 7919 + 14)
+    for _ in range(400 if tier == 'thorough' else 60):
+        T = []
+        for k in rng2.sample(PAREN_KEYS, rng2.choice([2, 2, 3])):
+            T.append((k, [rng2.choice(PAREN_ALIASES) for _ in range(rng2.choice([1, 1, 2]))], False))
+        rep.count('tables_with_parenthesised_aliases')
+        for p in itertools.permutations(T):
             cases.append(list(p))
     res = run_model([(11, enc_table(T)) for T in cases])
     for T, r in zip(cases, res):
